@@ -19,9 +19,13 @@ WRITE_MODE_CHARS = set("wxa+")
 class Context:
 
     def __init__(self, tier: str = "quick", overlay: dict[str, str] | None = None,
-                 root=None):
+                 root=None, normalise_helpers: bool = True):
         self.tier = tier
         self.repo = Repo(root=root, overlay=overlay)
+        self.inline_log: list[str] = []
+        if normalise_helpers:
+            from sa.inline import normalise
+            self.repo, self.inline_log = normalise(self.repo, Resolver)
         self.res = Resolver(self.repo)
         self._cg: CallGraph | None = None
         self._cfgs: dict[tuple, CFG] = {}
@@ -48,6 +52,8 @@ class Context:
         d = dict(self.repo.stats())
         d["source_digest"] = self.repo.digest()
         d["repo"] = str(self.repo.root)
+        if self.inline_log:
+            d["normalised_helpers"] = self.inline_log[:20]
         if self._cg is not None:
             d["calls_total"] = self.res.stats["calls"]
             d["calls_resolved"] = self.res.stats["resolved"]
